@@ -18,8 +18,22 @@ def _alarm(_sig, _frm):
     raise Watchdog()
 
 
+def _die_with_parent():
+    """Ask the kernel to kill this worker when the runner goes away (a runner
+       killed by an outer timeout must not leave workers behind)"""
+
+    try:
+        import ctypes
+        ctypes.CDLL(None, use_errno=True).prctl(1, signal.SIGKILL)  # PDEATHSIG
+        if os.getppid() == 1:
+            os._exit(3)
+    except Exception:
+        pass
+
+
 def main():
     pid, casepath, outpath = sys.argv[1:4]
+    _die_with_parent()
 
     from . import import_asyncssh
     import_asyncssh()
